@@ -213,8 +213,16 @@ func (c *crashRunner) run() {
 	}
 	prevSnap := map[string][]byte{}
 	prevSynced := map[string]int64{}
+	lastW := int64(-1)
 	for i := 0; i < len(c.states)-1 && i < len(c.h.Ops); i++ {
 		ks := byOp[i]
+		// the power may also go between two calls: whenever a call has acknowledged something new (Sync, Close, an
+		// AutoSync Publish), the directory as that call left it is cut back to what is fsynced - before the next call
+		// does anything (its first step is often the very fsync that would hide an acknowledgement given too early)
+		if c.plossOn && len(prevSnap) > 0 && c.acks[i] != lastW {
+			c.powerLoss(tapEvent{Op: "idle", Path: "(between two calls)", Snap: prevSnap, Synced: prevSynced}, i, -1, "")
+		}
+		lastW = c.acks[i]
 		// KF signature: inside a rebase, after the rename of the rewritten log to a new base, before the old log is removed
 		renameAt, removeAt := -1, -1
 		for j, k := range ks {
@@ -255,7 +263,6 @@ func (c *crashRunner) run() {
 			prevSnap, prevSynced = ev.Snap, ev.Synced
 		}
 	}
-	_, _ = prevSnap, prevSynced
 }
 
 func (c *crashRunner) tornCuts(off, n int64) []int64 {
